@@ -667,6 +667,13 @@ char *macros_expand_params(
 
     if (ch == ',' && !in_string && !in_ticks && open_parens == 0)
     {
+      // params_ptr[] has 256 entries, params[] needs room for the terminator.
+      if (ptr >= (int)sizeof(params) - 4 || count >= 254)
+      {
+        print_error(asm_context, "Macro parameters too long");
+        return nullptr;
+      }
+
       params[ptr++] = 0;
       params_ptr[++count] = ptr;
       continue;
